@@ -574,9 +574,16 @@ func c18Ref(r *zsim.Run) {
 type c18Closer struct {
 	id     int
 	closed *map[int]int
+	slow   func() // closing takes a while
 }
 
-func (c c18Closer) Close() error { (*c.closed)[c.id]++; return nil }
+func (c c18Closer) Close() error {
+	if c.slow != nil {
+		c.slow()
+	}
+	(*c.closed)[c.id]++
+	return nil
+}
 
 func c18ResMgr(r *zsim.Run) {
 	o := r.Ops
@@ -586,20 +593,47 @@ func c18ResMgr(r *zsim.Run) {
 	nextID := 0
 	got := map[string]map[int]bool{}
 	ov := &c18Ov{r: r}
+	// in some runs Close arrives while Gets are still being made (a Get that loses that race is refused - the
+	// manager must not be used after Close - but whatever a Get hands out, Close closes)
+	closeEarly := o.Intn(3) == 0
+	closeDone := false
+	if closeEarly {
+		r.Go("closer", func() {
+			c18Pause(r)
+			c18Pause(r)
+			m.Close()
+			closeDone = true
+		})
+	}
 	c18Clients(r, 2+o.Intn(3), func(c int) {
 		for i := 0; i < 1+o.Intn(3) && !r.Failed(); i++ {
 			key := zsim.Pick(o, "a", "a", "b")
+			if closeEarly {
+				key = zsim.Pick(o, "a", "b", "c", "d")
+			}
 			fail := o.Intn(5) == 4
 			ov.in()
-			res, err := m.Get(key, func() (io.Closer, error) {
-				c18Pause(r)
-				if fail {
-					return nil, errors.New("create-failed")
-				}
-				nextID++
-				created[key] = append(created[key], nextID)
-				return c18Closer{nextID, &closed}, nil
-			})
+			var res io.Closer
+			var err error
+			func() {
+				defer func() {
+					if p := recover(); p != nil {
+						if !closeEarly {
+							panic(p)
+						}
+						err = fmt.Errorf("refused after Close: %v", p)
+					}
+				}()
+				res, err = m.Get(key, func() (io.Closer, error) {
+					c18Pause(r)
+					if fail {
+						return nil, errors.New("create-failed")
+					}
+					nextID++
+					created[key] = append(created[key], nextID)
+					return c18Closer{nextID, &closed, func() { c18Pause(r) }}, nil
+				})
+			}()
 			ov.out()
 			if err == nil {
 				r.Logf("c%d get %s -> resource %d", c, key, res.(c18Closer).id)
@@ -619,7 +653,8 @@ func c18ResMgr(r *zsim.Run) {
 		return
 	}
 	for k, ids := range created {
-		if len(ids) > 1 {
+		// (after Close a Get may still run its create function before it is refused; that resource is never handed out)
+		if len(ids) > 1 && !closeEarly {
 			r.Failf("resourcemanager-created-twice", "key %s: create succeeded %d times (resources %v)", k, len(ids), ids)
 			return
 		}
@@ -629,6 +664,21 @@ func c18ResMgr(r *zsim.Run) {
 			r.Failf("resourcemanager-different-resources", "key %s: callers received different resources %v", k, ids)
 			return
 		}
+	}
+	if closeEarly {
+		if !r.WaitFor(time.Minute, time.Millisecond, func() bool { return closeDone }) {
+			r.Failf("resourcemanager-close", "Close did not return: %v", r.Alive(false))
+			return
+		}
+		for k, ids := range got {
+			for id := range ids {
+				if closed[id] != 1 {
+					r.Failf("resourcemanager-close", "Get(%s) handed out resource %d while Close was under way; Close has returned and the resource was closed %d times (want once)", k, id, closed[id])
+					return
+				}
+			}
+		}
+		return
 	}
 	m.Close()
 	for _, ids := range created {
